@@ -46,13 +46,13 @@ impl Monitor for C16 {
         "C16"
     }
     fn gens(&self, tier: Tier) -> Vec<Gen> {
-        vec![gen("toa-slab", tier.pick(SLABS, SLABS, 8)), gen("toa-forced-ldro", tier.pick(SLABS, SLABS, 4))]
+        vec![gen("toa-slab", tier.pick(SLABS, SLABS, 8)), gen("toa-forced-ldro", tier.pick(SLABS, SLABS, 4)), gen("toa-reloaded", tier.pick(SLABS, SLABS, 4))]
     }
     fn exhaustive(&self, tier: Tier) -> bool {
         tier != Tier::Sanitizer
     }
     fn rule(&self) -> String {
-        "toa-slab: case i = (SF, BW, CR, header mode) by index arithmetic; each case sweeps every payload length 0..255 x preamble {None, 0..255} (65 792 calls of time_on_air_us, each compared with the exact-integer formula; consecutive lengths compared for monotonicity). Class = (SF, BW, CR, header, sign class of the formula's numerator, length bucket). toa-forced-ldro: the same slabs with the public `ldro` field set to the opposite of what new() decided (the constructor's documentation allows forcing it); DE in the formula is the field's value.".into()
+        "toa-slab: case i = (SF, BW, CR, header mode) by index arithmetic; each case sweeps every payload length 0..255 x preamble {None, 0..255} (65 792 calls of time_on_air_us, each compared with the exact-integer formula; consecutive lengths compared for monotonicity). Class = (SF, BW, CR, header, sign class of the formula's numerator, length bucket). toa-forced-ldro: the same slabs with the public `ldro` field set to the opposite of what new() decided (the constructor's documentation allows forcing it); DE in the formula is the field's value. toa-reloaded: the same slabs with parameters that were serialised with the crate's serde support and read back.".into()
     }
     fn assumptions(&self) -> Vec<String> {
         vec![
@@ -64,12 +64,13 @@ impl Monitor for C16 {
         if tier == Tier::Sanitizer {
             vec!["toa_judged"]
         } else {
-            vec!["toa_judged", "numerator_nonpositive", "numerator_positive", "ldro_on", "ldro_off", "ldro_forced_on", "ldro_forced_off", "preamble_none", "header_implicit", "header_explicit", "monotonic_pairs"]
+            vec!["toa_judged", "numerator_nonpositive", "numerator_positive", "ldro_on", "ldro_off", "ldro_forced_on", "ldro_forced_off", "params_reloaded", "preamble_none", "header_implicit", "header_explicit", "monotonic_pairs"]
         }
     }
 
     fn run_case(&self, g: &str, idx: u64, _rng: &mut Prng, col: &mut Collector) {
         let forced = g == "toa-forced-ldro";
+        let reloaded = g == "toa-reloaded";
         // sanitizer tier: spread the 8 cases over the slab space
         let slab = if col.tier == Tier::Sanitizer { (idx * 83) % SLABS } else { idx };
         let explicit = slab % 2 == 0;
@@ -84,11 +85,25 @@ impl Monitor for C16 {
             p.ldro = !p.ldro;
             col.event(if p.ldro { "ldro_forced_on" } else { "ldro_forced_off" });
         }
+        if reloaded {
+            // parameters that went through the crate's own serialised form (serde feature) and back
+            // are the same parameters: same airtime for every call
+            match serde_json::to_string(&p).ok().and_then(|t| serde_json::from_str::<BaseBandModulationParams>(&t).ok()) {
+                Some(q) => {
+                    col.event("params_reloaded");
+                    p = q;
+                }
+                None => {
+                    col.violation("C16|toa|reload-fails", "modulation parameters serialised by the crate do not deserialise", json!({"sf": sfn as i64, "bw": BW_NAME[bwi]}));
+                    return;
+                }
+            }
+        }
         let de = p.ldro;
         let tsym = ((1u64 << sfn) * 1_000_000 / bw.hz() as u64) as i128;
         // the symbol time is 2^SF / BW of the *named* bandwidth: the value hz() reports for it must be
         // the data sheet's figure (500 kHz / 2^k, possibly rounded to 1 Hz or, as printed, to 10 Hz)
-        if !forced {
+        if !forced && !reloaded {
             let exact_num = 500_000u64; // true bandwidth = 500000 / BW_DIV
             let d = BW_DIV[bwi];
             let allowed = [BW_NOMINAL_HZ[bwi], exact_num / d, exact_num.div_ceil(d), (exact_num * 2 + d) / (2 * d)];
@@ -102,7 +117,7 @@ impl Monitor for C16 {
             }
         }
         let hdr = if explicit { "explicit" } else { "implicit" };
-        let cell = format!("SF{}/BW{}/CR4_{}/hdr={}{}", sfn, BW_NAME[bwi], crd, hdr, if forced { "/ldro-forced" } else { "" });
+        let cell = format!("SF{}/BW{}/CR4_{}/hdr={}{}", sfn, BW_NAME[bwi], crd, hdr, if forced { "/ldro-forced" } else if reloaded { "/reloaded" } else { "" });
         col.event(if de { "ldro_on" } else { "ldro_off" });
         col.event(if explicit { "header_explicit" } else { "header_implicit" });
         if col.want_sample() {
@@ -187,7 +202,7 @@ impl Monitor for C16 {
                     };
                     // how many symbols off (if a whole number of symbols without preamble)
                     let got_sym = if tsym > 0 && pre.is_none() && got % tsym == 0 { Some((got / tsym) as i64) } else { None };
-                    crate::viol(col, &format!("C16|toa|mismatch|{}|hdr={}|{}{}", numclass, hdr, dir, if forced { "|ldro-forced" } else { "" }), "time_on_air_us differs from the Semtech formula", || {
+                    crate::viol(col, &format!("C16|toa|mismatch|{}|hdr={}|{}{}", numclass, hdr, dir, if forced { "|ldro-forced" } else if reloaded { "|reloaded" } else { "" }), "time_on_air_us differs from the Semtech formula", || {
                         json!({"cell": cell, "len": len, "preamble": pre.map(|x| x as i64), "ldro": de, "tsym_us": tsym as u64, "numerator": num as i64, "denominator": (4 * (sfn - 2 * de as i128)) as i64, "expected_symbols": n as i64, "got_symbols_if_whole": got_sym, "expected_us": exp as u64, "got_us": got as u64})
                     });
                 }
